@@ -131,6 +131,7 @@ def work(shard, tier):
         if hasattr(mod, 'split'):
             b = C.synth_boundaries(name, rng, k=1 if tier == 'quick' else 4)
             nums = nums + rng.sample(b, min(len(b), 60 if tier == 'quick' else 600))
+        nums = nums + C.synth_field_extremes(name, rng, k=1 if tier == 'quick' else 3, raw=False, cap=150 if tier == 'quick' else 2000)[:200 if tier == 'quick' else 3000]
         fsets = format_optsets(name, mod, nums[0])
         for v0 in nums:
             variants = list(gen.decorations(v0, name, tier, rng))
